@@ -61,13 +61,13 @@ def _initialize(
     """
     freq: Freq = {
         pos: {synset.id: smoothing for synset in wordnet.synsets(pos=pos)}
-        for pos in IC_PARTS_OF_SPEECH
+        for pos in sorted(IC_PARTS_OF_SPEECH)
     }
     # pretend ADJ_SAT is just ADJ
     for synset in wordnet.synsets(pos=ADJ_SAT):
         freq[ADJ][synset.id] = smoothing
     # also initialize totals (when synset is None) for each part-of-speech
-    for pos in IC_PARTS_OF_SPEECH:
+    for pos in sorted(IC_PARTS_OF_SPEECH):
         freq[pos][None] = smoothing
     return freq
 
